@@ -156,7 +156,10 @@ func c18Node(t *testing.T, dir, role string) (*node, error, string) {
 	if err := os.MkdirAll(data, 0o755); err != nil {
 		return nil, err, ""
 	}
-	return startNode(t, f, data, gb, nil)
+	// The builder stops adding transactions after targetBuildDuration of wall
+	// time (100 ms by default); on a loaded machine that yields empty blocks.
+	// It stops as soon as the mempool is empty, so a large value costs nothing.
+	return startNode(t, f, data, gb, []byte(`{"chain":{"targetBuildDuration":60000000000}}`))
 }
 
 func TestC18Child(t *testing.T) {
@@ -499,7 +502,7 @@ func runC18Case(t *testing.T, r *kit.Run, c c18Case, genesisBytes []byte) {
 	}
 	w.B = rep
 	if key := c18InitKey(rep); key != "" {
-		r.Violation(key, w, "%s: restart failed (accepts returned up to %d, started up to %d): err=%q panic=%q", c, w.LastRet, w.LastStart, rep.InitErr, tail(firstLines(rep.InitPanic, 12), 900))
+		r.Violation(key, w, "%s: restart failed (accepts returned up to %d, started up to %d): err=%q panic=%q", c, w.LastRet, w.LastStart, rep.InitErr, firstLines(rep.InitPanic, 6))
 		return
 	}
 	r.Count("restarts_ok", 1)
@@ -599,12 +602,19 @@ func runC18Case(t *testing.T, r *kit.Run, c c18Case, genesisBytes []byte) {
 	r.Sample(map[string]any{"case": c, "accept_returned": w.LastRet, "accept_started": w.LastStart, "restarted_last": rep.LastHeight, "root": rep.StateRoot, "deliveries": len(w.Subs)})
 }
 
+// firstLines keeps the panic message and the first n frames inside hypersdk
+// (harness and runtime frames dropped).
 func firstLines(s string, n int) string {
-	l := strings.SplitN(s, "\n", n+1)
-	if len(l) > n {
-		l = l[:n]
+	var out []string
+	for i, l := range strings.Split(s, "\n") {
+		if i == 0 || (strings.Contains(l, "github.com/ava-labs/hypersdk/") && !strings.Contains(l, "zzverif") && !strings.HasPrefix(l, "\t")) {
+			out = append(out, strings.TrimSpace(l))
+		}
+		if len(out) > n {
+			break
+		}
 	}
-	return strings.Join(l, " | ")
+	return strings.Join(out, " | ")
 }
 
 func TestC18(t *testing.T) {
@@ -620,10 +630,13 @@ func TestC18(t *testing.T) {
 		"'restarting succeeds' includes the SetState(Bootstrapping)->SetState(NormalOp) transitions the engine performs after Initialize, when the never-crashed node passes them too",
 		"reference node = same code, never crashed (the statement's own comparison object)",
 	)
-	n := r.N(4, 8)
-	depths := []int{1, 2}
+	type cfg struct {
+		N      int
+		Depths []int
+	}
+	cfgs := []cfg{{4, []int{1, 2}}}
 	if r.Thorough() {
-		depths = []int{1, 2, 3, 5}
+		cfgs = []cfg{{8, []int{1, 2, 3, 5, 7}}, {12, []int{2, 11}}}
 	}
 	genesisBytes, err := c18Genesis()
 	if err != nil {
@@ -637,17 +650,18 @@ func TestC18(t *testing.T) {
 		}
 		cases = []c18Case{w.Case}
 	} else {
-		for _, d := range depths {
-			for _, p := range c18Points {
-				for k := 1; k <= n; k++ {
-					cases = append(cases, c18Case{Point: p, Hit: k, N: n, Depth: d})
+		for _, cf := range cfgs {
+			for _, d := range cf.Depths {
+				for _, p := range c18Points {
+					for k := 1; k <= cf.N; k++ {
+						cases = append(cases, c18Case{Point: p, Hit: k, N: cf.N, Depth: d})
+					}
 				}
 			}
 		}
 	}
 	r.Extra("crash_points", c18Points)
-	r.Extra("queue_depths", depths)
-	r.Extra("chain_length", n)
+	r.Extra("chain_length_and_queue_depths", cfgs)
 	par := 8
 	if v, err := strconv.Atoi(os.Getenv("VERIF_C18_PAR")); err == nil && v > 0 {
 		par = v
